@@ -222,6 +222,10 @@ func c18Alphabet(s c18Shape, batches []int) []c18Op {
 		}
 		ops = append(ops, c18Op{K: "w", DS: ds, ID: ids[0], V: 1, Refs: link(0), Del: true})
 		ops = append(ops, c18Op{K: "w", DS: ds, ID: ids[1], V: 1, Refs: link(0)})
+		if len(preds) > 0 && ds != "M" {
+			// ... and entity 2 linked to target 2 (two changed entities of one page that lead to different targets)
+			ops = append(ops, c18Op{K: "w", DS: ds, ID: ids[1], V: 1, Refs: link(1)})
+		}
 	}
 	for _, n := range batches {
 		ops = append(ops, c18Op{K: "run", N: n})
